@@ -301,6 +301,17 @@ def run(ctx):
                 term = [n for n in f.nodes if n.get("k") == "bin" and n["op"] == "=" and n.child("l").get("k") == "index" and core(n.child("r")).get("v") == 0]
                 okl = okl and (bool(term) or "len" in expr_str(hobj))
             rsrc.check(okl, "ChecksumOnlyFileSystem::getLinkInfo|digest-of-link-target", "", why, f)
+    # the local file system's checksum is computed from the file on every call: no answer comes from anything remembered (a stat record is
+    # exactly what checksum-only mode must not depend on)
+    lfc = [g for g in prog.functions.values() if not g.is_lambda and g.name.split("::")[-1] == "getFileChecksum" and "LocalFileSystem" in (g.cls or "")]
+    if len(lfc) != 1:
+        raise AnalysisBroken("LocalFileSystem::getFileChecksum not found (%d)" % len(lfc))
+    g = lfc[0]
+    cc = [c for c in g.calls() if (c.get("fn") or "").endswith("FileChecksum::getChecksumForPath")]
+    okl = len(cc) >= 1 and all(expr_plain(arg_nodes(c)[0]) == "path" for c in cc) and \
+        cfg.must_pass_through(g, cfg.entry_pos(g), lambda p, e: any(cfg.elem_node(g, e) is c for c in cc))[0]
+    rsrc.check(okl, "LocalFileSystem::getFileChecksum|digest-on-every-call", "", "a checksum can be returned without reading the file at `path` in this call (a remembered value, "
+               "keyed by something other than the content)", g)
     for f in prog.functions.values():
         if f.name.endswith("FileChecksumHasher::readPathStringAndDigest") and not f.is_lambda:
             up_ = [c for c in f.calls() if (c.get("fn") or "").endswith("::update")]
@@ -443,4 +454,7 @@ VARIANTS = [
          expect=("R-CHECKSUM-NONZERO", "zero-only-when-missing")),
     dict(name="benign-checksum-early-return-for-missing", file="lib/Basic/FileInfo.cpp", old="  if (fileInfo.isMissing()) {\n    memset(result.bytes, 0, sizeof(result.bytes));\n  } else if (fileInfo.isDirectory()) {",
          new="  memset(result.bytes, 0, sizeof(result.bytes));\n  if (fileInfo.isMissing())\n    return result;\n  if (fileInfo.isDirectory()) {", expect=None),
+    dict(name="checksum-remembered-per-stat-record", file="lib/Basic/FileSystem.cpp", old="    return FileChecksum::getChecksumForPath(path);",
+         new="    static std::pair<FileInfo, FileChecksum> last;\n    auto info = FileInfo::getInfoForPath(path);\n    if (!info.isMissing() && last.first == info)\n      return last.second;\n    last = std::make_pair(info, FileChecksum::getChecksumForPath(path));\n    return last.second;",
+         expect=("R-CHECKSUM-SOURCE", "digest-on-every-call")),
 ]
